@@ -20,9 +20,11 @@ func US(sub string, ev int) Step { return Step{Op: "US", Ev: ev, Sub: sub} }
 func X(sub string) Step          { return Step{Op: "X", Sub: sub} }
 
 var (
-	C = Step{Op: "C"}
-	E = Step{Op: "E"}
-	D = Step{Op: "D"}
+	// WHB: wait until a heartbeat write to a subscriber of the trigger is in flight or done
+	WHB = Step{Op: "WHB"}
+	C   = Step{Op: "C"}
+	E   = Step{Op: "E"}
+	D   = Step{Op: "D"}
 )
 
 func (s Step) label() string {
@@ -65,6 +67,9 @@ type Session struct {
 	// subscriber's writer (a client that leaves after it got its answer), or until the
 	// subscription was completed or its upstream's program is over.
 	After int
+	// AfterDone: the action waits until the source of the subscriber's trigger has begun
+	// its Done call (a client that goes away while the upstream is finishing).
+	AfterDone bool
 }
 
 func (s Session) key() string { return s.Input + "|" + s.Hdr }
@@ -106,6 +111,9 @@ type Scenario struct {
 
 	C13Only  bool // explored by C13 only
 	Thorough bool // explored in the thorough tier only
+	// MapOrder: explored (both tiers) with at most one resolver map range taken in
+	// descending key order.
+	MapOrder bool
 	// Deep: extra delays on top of the tier's bound {quick, thorough} (the scenarios that
 	// put a client action right next to the racing upstream call).
 	Deep [2]int
@@ -220,6 +228,15 @@ func Scenarios(prop string, thorough bool) []Scenario {
 			Progs: map[string][][]Step{k: {{U(1), U(2), U(3), D}, {U(1), D}}}, SourceIgnoresCtx: true},
 		{Name: "S25-sync-creator-disconnects", Actors: []Actor{one("A", with(syncS("A", "a", "h1", "cancel"), func(s *Session) { s.After = 1 })), one("B", async("B", "a", "h1", 2, "none"))},
 			Progs: map[string][][]Step{k: {{U(1), U(2), U(3), D}, {U(1), D}}}, SourceIgnoresCtx: true},
+		// identical subscribers whose forwarded headers have three names: the trigger identity must not depend on a map order
+		{Name: "S26-same-headers-three-names", MapOrder: true, Actors: []Actor{one("A", async("A", "a", "h1+", 1, "none")), one("B", async("B", "a", "h1+", 2, "none"))},
+			Progs: map[string][][]Step{"a|h1+": {{U(1), D}, {U(1), D}}}},
+		// synchronous subscriber with heartbeats: a heartbeat write in flight, the source finishes, the client goes away last
+		{Name: "S27-sync-heartbeat-done-disconnect", Actors: []Actor{one("A", with(syncS("A", "a", "h1", "cancel"), func(s *Session) { s.HB = true; s.AfterDone = true }))},
+			Progs: map[string][][]Step{k: {{U(1), WHB, D}}}, Ticks: 1},
+		// two subscriptions on ONE connection, the heartbeat of one of them fails, events follow
+		{Name: "S28-heartbeat-fault-sibling-subscription", MaxBound: 3, Actors: []Actor{{Name: "A", Sessions: []Session{{Name: "A1", Input: "a", Hdr: "h1", Conn: 1, SubID: 1, Action: "none", HB: true}, {Name: "A2", Input: "a", Hdr: "h1", Conn: 1, SubID: 2, Action: "none", Shape: 1}}}},
+			Progs: map[string][][]Step{k: {{U(1), U(2), D}, {U(1), D}}}, Ticks: 1, HBFault: map[string]bool{"A1": true}},
 		{Name: "S20-leave-and-join", Actors: []Actor{one("A", async("A", "a", "h1", 1, "unsub")), one("B", async("B", "a", "h1", 2, "none"))},
 			Progs: map[string][][]Step{k: {{U(1), U(2)}, {U(1), U(2)}}}},
 
